@@ -93,3 +93,27 @@ let eval (props : string list) case impl =
     else if List.mem "C07" props && M.known_F21 the_app (nat_of_int maxh) segs then "F21"
     else "-" in
   ((if canon model = canon impl then impl else model), if ok then [] else List.map (fun p -> (p, tag)) props)
+
+
+(* readloop stream (C03 at connection level): `<hex> <segmentations>`; impl = transcripts joined by '#'.
+   Every segmentation must give the same transcript, and its class must be the one the sequential
+   interpretation of the bytes gives (400 for a malformed head or unframeable request, nothing for an
+   incomplete head, an answer otherwise). *)
+let eval_readloop case impl =
+  match split_on ' ' case with
+  | [h; _] ->
+    let input = bytes_of_hex h in
+    let (sresps, ending) = M.spec_conn the_app (nat_of_int 4096) input in
+    let cls = match sresps with
+      | r :: _ -> if int_of_n r.M.rs_status = 400 || int_of_n r.M.rs_status = 431 then "rejected" else "answered"
+      | [] -> (match ending with M.EWaiting -> "incomplete" | M.EClosed -> "closed" | M.EUnspec -> "unspecified") in
+    let ts = split_on '#' impl in
+    let first = match ts with t :: _ -> t | [] -> "" in
+    let icls = if starts "CLOSED" first then "incomplete" else if starts "400," first || starts "431," first then "rejected"
+      else if starts "TIMEOUT" first then "timeout" else "answered" in
+    let same = List.for_all (fun t -> t = first) ts in
+    (* a handler error (no response, close) also shows as CLOSED at the lock-step point *)
+    let cls_ok = icls = cls || (cls = "closed" && icls = "incomplete") || cls = "unspecified" in
+    let m = cls ^ " same" in
+    ((if same && cls_ok then impl else m), (if same && cls_ok then [] else [("C03", "-")]))
+  | _ -> failwith "bad readloop case"
